@@ -58,6 +58,10 @@ pub struct Recorder {
     pub raw_seen: std::collections::HashMap<(u8, u64), String>,
     /// class cases of MC_Sweep.tla, swept after the last case has been read
     pub sweep: Option<Box<crate::sweep::Sweep>>,
+    /// distinct values reached during the run (by canonical text): the order axioms are checked across all of them at the end (C12)
+    pub pool: Vec<unic_locale_impl::Locale>,
+    pub pool_seen: std::collections::HashSet<String>,
+    pub pool_offered: u64,
 }
 
 impl Recorder {
@@ -72,6 +76,30 @@ impl Recorder {
             cur_case: None,
             raw_seen: std::collections::HashMap::new(),
             sweep: None,
+            pool: Vec::new(),
+            pool_seen: std::collections::HashSet::new(),
+            pool_offered: 0,
+        }
+    }
+
+    /// Keep up to POOL_CAP distinct values: the first half as they come, the rest spread over the whole run.
+    pub fn pool_add(&mut self, l: &unic_locale_impl::Locale) {
+        const POOL_CAP: usize = 700;
+        let text = l.to_string();
+        if self.pool_seen.contains(&text) {
+            return;
+        }
+        self.pool_offered += 1;
+        if self.pool.len() < POOL_CAP {
+            self.pool_seen.insert(text);
+            self.pool.push(l.clone());
+        } else if self.pool_offered % 97 == 0 {
+            // deterministic replacement in the second half
+            let idx = POOL_CAP / 2 + ((self.pool_offered / 97) as usize % (POOL_CAP / 2));
+            let old = self.pool[idx].to_string();
+            self.pool_seen.remove(&old);
+            self.pool_seen.insert(text);
+            self.pool[idx] = l.clone();
         }
     }
 
